@@ -107,6 +107,20 @@ def r19_1(ctx: Ctx, rep: Report) -> None:
             kind[op] = forward_shape(ctx, fwd, normal[0], fwd.params[1])["kind"]
     sites = [(sf, x) for sf in _stage_funcs(ctx) for x in _split_sites(sf)]
     rep.instance(len(sites))
+    # a side whose operands are split (`<copy>.<side>port.items = [item]`) without a test of that side's operator splits
+    # whatever has several operands - `range 1 3` too
+    tested = {x[1] for _sf, x in sites}
+    for sf in _stage_funcs(ctx):
+        for n in own_nodes(sf.node):
+            if isinstance(n, ast.Assign) and isinstance(n.targets[0], ast.Attribute) and n.targets[0].attr in ("items", "_items") and isinstance(n.value, ast.List) and len(n.value.elts) == 1:
+                c = chain(n.targets[0])
+                side = "src" if c and any("src" in p_ for p_ in c) else "dst" if c and any("dst" in p_ for p_ in c) else None
+                if side and side not in tested and "?" not in tested:
+                    rep.instance()
+                    rep.violation("Ace.ungroup_ports", snippet(n, 50), f"the {'source' if side == 'src' else 'destination'} operands are split without a test of that side's operator: an entry with `range A B` has two operands too and is split (the copies are refused)", where(sf, n), inp="permit tcp any range 1 3 any")
+                    tested.add(side)
+    if len(sites) < 2 and rep.rule_counts.get("R19.1", {}).get("violations", 0):
+        return
     rep.floor(2, "operator tests in Ace.ungroup_ports (source and destination)")
     for sf, (node, sd, lits, _neg) in sites:
         for op in lits:
@@ -510,6 +524,15 @@ def splice_rule(ctx: Ctx, rep: Report, q: str, rid: str = "R19.4") -> None:  # n
             rep.ok(f"{q}: {snippet(st)}", "the spliced list, in the original order", where=where(f, st))
         else:
             rep.violation(q, snippet(st), f"the stored list is not the order-preserving splice ({state}; {why})", where(f, st))
+        # ... on every normal path (a path that re-groups and returns without storing leaves the entries that stand
+        # outside the blocks unsplit: they were split only in the list that is thrown away)
+        rep.instance()
+        sn = [cfg.node_of(x) for x in stores]
+        sn = [x for x in sn if x is not None]
+        if sn and cfg.all_paths_pass(cfg.entry, cfg.exit, lambda m: m in sn, labels_avoid=("exc",)):
+            rep.ok(f"{q}: store", "every normal path stores the spliced list", where=where(f, st))
+        else:
+            rep.violation(q, f"path without {snippet(st, 40)}", "some normal path returns without storing the spliced list: entries that were split only in the local list stay multi-port", where(f, st), inp="grouped ACL; acl.append(Ace('permit tcp any any eq 1 2')); acl.ungroup_ports()")
 
 
 def r19_4b(ctx: Ctx, rep: Report) -> None:
@@ -618,6 +641,12 @@ def run(ctx: Ctx, rep: Report, tier: str) -> None:
     sub17 = Report("C19")
     carried_flags(ctx, sub17)
     rep.absorb(sub17, "R19.10")
+    # R19.11 re-grouping after the split keeps the identity of every block (C16 R16.18)
+    from .c16 import blocks_keep_identity
+
+    sub16 = Report("C19")
+    blocks_keep_identity(ctx, sub16)
+    rep.absorb(sub16, "R19.11")
     r19_2(ctx, rep)
     r19_3(ctx, rep)
     splice_rule(ctx, rep, "AceGroup.ungroup_ports")
